@@ -264,6 +264,18 @@ def gen_case(ctx: Ctx, k: int):
                 c["to"] = ".c"
         case["config"] = c
         case["config_mode"] = mode
+    if k % 7 == 3:
+        # a configuration file whose values are falsy (delta = 0, no stiff states) next to command-line values that are not:
+        # the file still wins
+        c = dict(case.get("config") or {"format": "none"})
+        c["delta"] = 0.0
+        c["scheme"] = ["generalized_rush_larsen", "hybrid_rush_larsen"]
+        if rng.random() < 0.6:
+            c["stiff_states"] = []
+        cli["delta"] = rng.choice([0.5, 1e-3])
+        cli["stiff_states"] = rng.sample(states, rng.randint(1, len(states)))
+        case["config"] = c
+        case["config_mode"] = case.get("config_mode") or rng.choice(["explicit", "pyproject"])
     if k % 5 == 4:
         # invalid at load time, or only at code generation (a cycle, a name the generated code reserves)
         bad = rng.choice(["syntax", "duplicate", "undefined", "incomplete", "cycle", "reserved", "reserved"])
